@@ -1278,7 +1278,14 @@ class Ev:
             t.elementwise = True
         return t
 
-    e_GeneratorExp = e_ListComp
+    def e_GeneratorExp(self, n, env, mod):
+        # a generator expression over a cursor (an object that hands out items one at a time, e.g. the lines of an open file)
+        # is lazy: each next() consumes only as many items of the cursor as it needs
+        if len(n.generators) == 1:
+            itv = self.eval(n.generators[0].iter, env, mod)
+            if hasattr(itv, "sym_next") and not isinstance(itv, LazyGen):
+                return LazyGen(self, n, dict(env), mod, itv)
+        return self.e_ListComp(n, env, mod)
 
     def e_SetComp(self, n, env, mod):
         return Tup(self.comp(n, env, mod, lambda e: self.eval(n.elt, e, mod)), "set")
@@ -1907,6 +1914,39 @@ class UnitReg:
 class BoundLib:
     def __init__(self, name, recv):
         self.name, self.recv = name, recv
+
+
+class LazyGen:
+    """(elt for target in cursor if conds): evaluated item by item"""
+
+    def __init__(self, ev, node, env, mod, cursor):
+        self.ev, self.node, self.env, self.mod, self.cursor = ev, node, env, mod, cursor
+
+    def sym_next(self, ev=None):
+        g = self.node.generators[0]
+        count = 0
+        while True:
+            item = self.cursor.sym_next(self.ev)          # RaisedV(StopIteration) when the cursor is exhausted
+            count += 1
+            if count > 100000:
+                raise self.ev.err("generator folding bound exceeded", self.node, self.mod)
+            e2 = dict(self.env)
+            self.ev.assign(g.target, item, e2, self.mod)
+            if all(self.ev.truth(self.ev.eval(c, e2, self.mod), c, self.mod) for c in g.ifs):
+                return self.ev.eval(self.node.elt, e2, self.mod)
+
+    def nxt(self):
+        return self.sym_next(self.ev)
+
+    def sym_iter(self, ev, n, mod):
+        out = []
+        while True:
+            try:
+                out.append(self.sym_next(ev))
+            except RaisedV as e:
+                if e.exc_name == "StopIteration":
+                    return out
+                raise
 
 
 class SliceV:
@@ -2928,6 +2968,13 @@ def lib_list_tolist(ev, a, k, n, mod):
 
 
 def lib_next(ev, a, k, n, mod):
+    if hasattr(a[0], "sym_next"):
+        try:
+            return a[0].sym_next(ev)
+        except RaisedV as e:
+            if e.exc_name == "StopIteration" and len(a) > 1:
+                return a[1]
+            raise
     items = ev.iterate(a[0], n, mod)
     if items:
         return items[0]
